@@ -19,8 +19,8 @@ CLAIMED = {
     },
     "C04": {
         "engine": "E1 syncorder",
-        "technique": "static analysis: per-file-class write -> fsync -> barrier obligations over MIR (dominance + strand joins), result-checked; post-meta ordering of destructive events; truncation-dominates-write rule for the WAL",
-        "text": "Decides the fsync obligations: for every file class each write is followed by a completed, result-checked fsync of that file before the barrier that depends on it (meta switch-over, WAL truncation, append return, create return). Removing any fsync makes an obligation underivable; a WAL blob is only written into an empty WAL file. Device semantics and drain-count arithmetic are assumed.",
+        "technique": "static analysis: per-file-class write -> fsync -> barrier obligations over MIR (dominance + strand joins), result-checked; post-meta ordering of destructive events; truncation-dominates-write rule for the WAL; provenance of written page numbers (copy-on-write, shared with C17)",
+        "text": "Decides the fsync obligations: for every file class each write is followed by a completed, result-checked fsync of that file before the barrier that depends on it (meta switch-over, WAL truncation, append return, create return). Removing any fsync makes an obligation underivable; a WAL blob is only written into an empty WAL file; value-file page writers take page numbers from the allocator and the allocator from the old free list or beyond the old bump. Device semantics and drain-count arithmetic are assumed.",
         "design_ref": "DESIGN.md 4 (E1), 5 (C04)",
         "note": _NOTE,
     },
@@ -62,7 +62,7 @@ CLAIMED = {
     "C15": {
         "engine": "E4 lockgraph (+E8 witness)",
         "technique": "static analysis: lock-order graph over MIR (guard live ranges, holder structs, call-graph closure; the read-transaction counter as a shared/exclusive barrier) + who-may-call / dominance rules for the access lock; session switches decided by conditional constant propagation",
-        "text": "Lock discipline: the held->acquired relation over all lock classes (incl. escaping guards and the read-transaction barrier) is acyclic; store/rollback mutation happens only under the access write guard; root check-and-set inside one write-guard acquisition; only Nomt::rollback creates a guard-less session. Observed values and channel liveness are not decided.",
+        "text": "Lock discipline: the held->acquired relation over all lock classes (incl. escaping guards and the read-transaction barrier) is acyclic; store/rollback mutation happens only under the access write guard; root check-and-set inside one write-guard acquisition; only Nomt::rollback creates a guard-less session; the direct read API looks values up under a blockingly acquired access guard. Observed values and channel liveness are not decided.",
         "design_ref": "DESIGN.md 4 (E4), 5 (C15)",
         "note": _NOTE,
     },
